@@ -61,7 +61,7 @@ func propC14(ch core.Chooser, st *core.Stats) error {
 		kept = append(kept, retained{what: what, slice: s, copy: append([]byte{}, s...)})
 	}
 	verify := func(when string) error {
-		return core.Safe(func() error {
+		return core.SafeFault(func() error {
 			for _, r := range kept {
 				if !bytes.Equal(r.slice, r.copy) {
 					return fmt.Errorf("%s: a slice returned earlier by %s changed its contents (now %s, was %s)", when, r.what, dbx.V(string(r.slice)), dbx.V(string(r.copy)))
